@@ -1,4 +1,5 @@
 import Juniper.Proofs.TreeAccessThread
+import Juniper.Proofs.TreeAccessScan
 /-!
 # Access-level model (C01, concurrent clause): all interleavings
 
@@ -17,7 +18,16 @@ structure Setup (cmp : K → K → Int) (t : Tree K V) (ops : List (Op K V)) : P
   sw : StrictWeak cmp
   nodup : (ids t.root).Nodup
   ok : ∀ (i : Nat) op, ops[i]? = some op → OpOK cmp t op
-  compat : ∀ (i j : Nat), i ≠ j → ∀ k v o, ops[i]? = some (.put k v) → ops[j]? = some o → cmp k o.key ≠ 0
+  /-- a `Put`'s key is inequivalent to the key of every other `Put` / `Get` / `Contains` … -/
+  compat : ∀ (i j : Nat), i ≠ j → ∀ k v o, ops[i]? = some (.put k v) → ops[j]? = some o → o.isSearch = true →
+    cmp k o.key ≠ 0
+  /-- … and to every stored key inside both bounds of a range reader -/
+  compatScan : ∀ (i j : Nat), i ≠ j → ∀ k v o, ops[i]? = some (.put k v) → ops[j]? = some o → o.isSearch = false →
+    ∀ y, Sub t.root y → ∀ idx (h : idx < y.kvs.length), inRangeOf cmp o y.kvs[idx].1 = true →
+      nearOp cmp o y.kvs[idx].1 = true → cmp k y.kvs[idx].1 ≠ 0
+  /-- a range reader is one of `Range`'s / `RangeReverse`'s, on a tree satisfying the tree invariant (balanced, sorted,
+  distinct node objects) -/
+  scanOK : ∀ (i : Nat) op, ops[i]? = some op → op.isSearch = false → ScanWF op ∧ Inv cmp t
 
 structure CInv (cmp : K → K → Int) (t : Tree K V) (ops : List (Op K V)) (c : Config K V) : Prop where
   len : c.pcs.length = ops.length
@@ -30,9 +40,68 @@ structure CInv (cmp : K → K → Int) (t : Tree K V) (ops : List (Op K V)) (c :
   untouched : ∀ y, Sub t.root y → ∀ i (h : i < y.kvs.length),
     (∀ (j : Nat) k v pc, ops[j]? = some (.put k v) → c.pcs[j]? = some pc → slotOf cmp k t.root = some (y.id, i) →
       pc.isDone = false) → c.mem.val y.id i = some y.kvs[i].2
+  /-- parent pointers and the zero key slots behind the live prefixes are still those of `t` -/
+  aux : AuxRep c.mem t
+  /-- every range reader follows the functional cursor (`ScanInv`) -/
+  scan : ∀ (i : Nat) op pc, ops[i]? = some op → c.pcs[i]? = some pc → ScanGood cmp t op pc
 
-theorem cinv_initial {t : Tree K V} {ops : List (Op K V)} {m : Mem K V} (hr : Rep m t) :
-    CInv cmp t ops (initial m ops) := by
+/-- two different goroutines never approach the same value slot if one of them is a `Put` -/
+theorem valpos_disjoint {t : Tree K V} {ops : List (Op K V)} (hs : Setup cmp t ops) {j j0 : Nat} (hjne : j ≠ j0) {k : K} {v : V}
+    {op : Op K V} (hoj : ops[j]? = some (.put k v)) (hop : ops[j0]? = some op) {x i : Nat}
+    (hvp : ValPos cmp t.root k x i) (hsk : SlotKey cmp t op x i)
+    (hnear : op.isSearch = false → ∀ y, Sub t.root y → y.id = x → ∀ h : i < y.kvs.length, nearOp cmp op y.kvs[i].1 = true) :
+    False := by
+  rcases hsk with ⟨hsr, hvp'⟩ | ⟨hns, hin⟩
+  · exact hs.compat j j0 hjne k v op hoj hop hsr (valPos_inj hs.sw hs.nodup hvp hvp')
+  · obtain ⟨y, hy, hid, hi, he⟩ := hvp
+    exact hs.compatScan j j0 hjne k v op hoj hop hns y hy i hi (hin y hy hid hi) (hnear hns y hy hid hi) he
+
+theorem slot_disjoint {t : Tree K V} {ops : List (Op K V)} (hs : Setup cmp t ops) {j j0 : Nat} (hjne : j ≠ j0) {k : K} {v : V}
+    {op : Op K V} (hoj : ops[j]? = some (.put k v)) (hop : ops[j0]? = some op) {x i : Nat}
+    (hsl : slotOf cmp k t.root = some (x, i)) (hsk : SlotKey cmp t op x i)
+    (hnear : op.isSearch = false → ∀ y, Sub t.root y → y.id = x → ∀ h : i < y.kvs.length, nearOp cmp op y.kvs[i].1 = true) :
+    False :=
+  valpos_disjoint hs hjne hoj hop (valPos_of_slot hsl) hsk hnear
+
+/-- the value slot a range reader is about to read holds a key inside its near bound -/
+theorem near_at_val {t : Tree K V} {ops : List (Op K V)} (hs : Setup cmp t ops) {c : Config K V} (hi : CInv cmp t ops c)
+    {j : Nat} {op : Op K V} {pc : PC K V} (ho : ops[j]? = some op) (hp : c.pcs[j]? = some pc) {x i : Nat} {w : Bool}
+    (ha : accessOf pc = some ⟨.node x (.val i), w⟩) :
+    op.isSearch = false → ∀ y, Sub t.root y → y.id = x → ∀ h : i < y.kvs.length, nearOp cmp op y.kvs[i].1 = true := by
+  intro hns y hy hid hlt
+  have hg := hi.good j op pc ho hp
+  have hsc := hi.scan j op pc ho hp
+  obtain ⟨_, hinv⟩ := hs.scanOK j op ho hns
+  cases pc with
+  | it ph st =>
+    cases ph with
+    | nVal =>
+      simp only [accessOf, itAccess] at ha
+      cases hx : st.curr with
+      | none => rw [hx] at ha; cases ha
+      | some x' =>
+        rw [hx] at ha
+        simp only [rd, Option.some.injEq, Access.mk.injEq, Loc.node.injEq, Field.val.injEq] at ha
+        obtain ⟨⟨rfl, rfl⟩, _⟩ := ha
+        exact scanGood_near hinv hsc hx ⟨hy, hid⟩ hlt
+    | _ => simp [accessOf, itAccess, rd] at ha
+  | done r => simp [accessOf] at ha
+  | run ops' cont rg r =>
+    rcases hg with ⟨hsr, _, _⟩ | ⟨x', _, _, _, ⟨k, rfl, _⟩ | ⟨k, v, rfl, _, _⟩⟩
+    · rw [hns] at hsr; cases hsr
+    · cases hns
+    · cases hns
+  | test x' i' => obtain ⟨hsr, _⟩ := hg; rw [hns] at hsr; cases hsr
+  | key x' i' => obtain ⟨hsr, _⟩ := hg; rw [hns] at hsr; cases hsr
+  | retn x' => obtain ⟨hsr, _⟩ := hg; rw [hns] at hsr; cases hsr
+  | leaf x' idx => obtain ⟨hp', _⟩ := hg; rw [Op.isPut_of_not_search hns] at hp'; cases hp'
+  | child x' idx => obtain ⟨hsr, _⟩ := hg; rw [hns] at hsr; cases hsr
+  | full x' => exact hg.elim
+  | itest x' j' => exact hg.elim
+  | ikey x' j' => exact hg.elim
+
+theorem cinv_initial {t : Tree K V} {ops : List (Op K V)} (hs : Setup cmp t ops) {m : Mem K V} (hr : Rep m t)
+    (hx : AuxRep m t) : CInv cmp t ops (initial m ops) := by
   obtain ⟨h1, h2, h3, h4⟩ := hr
   have hpc : ∀ (i : Nat) pc, (initial m ops).pcs[i]? = some pc → ∃ op, ops[i]? = some op ∧ pc = start op := by
     intro i pc h
@@ -40,7 +109,7 @@ theorem cinv_initial {t : Tree K V} {ops : List (Op K V)} {m : Mem K V} (hr : Re
     cases ho : ops[i]? with
     | none => rw [ho] at h; cases h
     | some op => rw [ho] at h; simp only [Option.map_some, Option.some.injEq] at h; exact ⟨op, rfl, h.symm⟩
-  refine ⟨by simp [initial], h2, h3, ⟨h1, fun y hy => (h4 y hy).1⟩, ?_, ?_, ?_⟩
+  refine ⟨by simp [initial], h2, h3, ⟨h1, fun y hy => (h4 y hy).1⟩, ?_, ?_, ?_, hx, ?_⟩
   · intro i op pc ho hp
     obtain ⟨op', ho', rfl⟩ := hpc i pc hp
     rw [ho] at ho'; cases ho'
@@ -50,6 +119,13 @@ theorem cinv_initial {t : Tree K V} {ops : List (Op K V)} {m : Mem K V} (hr : Re
     rw [start_not_done] at hd; cases hd
   · intro y hy i hi _
     exact (h4 y hy).2 i hi
+  · intro i op pc ho hp
+    obtain ⟨op', ho', rfl⟩ := hpc i pc hp
+    rw [ho] at ho'; cases ho'
+    refine scanGood_start op ?_ _ (fun fwd sk skey stop limit h => by rw [h, start_scan])
+    cases hsr : op.isSearch with
+    | false => exact (hs.scanOK i op ho hsr).1
+    | true => cases op <;> first | trivial | simp [Op.isSearch] at hsr
 
 theorem nodeS_setVal {m : Mem K V} {y : Node K V} (a i : Nat) (v : Option V) (h : NodeS m y) :
     NodeS (m.setVal a i v) y := ⟨h.1, h.2.1, h.2.2⟩
@@ -80,22 +156,34 @@ theorem cinv_step {t : Tree K V} {ops : List (Op K V)} (hs : Setup cmp t ops) {c
   have hne : ∀ pc' j, j ≠ j0 → (c.pcs.set j0 pc')[j]? = c.pcs[j]? := fun pc' j h => List.getElem?_set_ne (Ne.symm h)
   -- two different goroutines never own the same value slot if one of them is a Put
   have hdisj : ∀ (j : Nat) k v (o : Op K V) x i, j ≠ j0 → ops[j]? = some (.put k v) → slotOf cmp k t.root = some (x, i) →
-      ValPos cmp t.root op.key x i → False := by
-    intro j k v o x i hjne hoj hsl hvp
-    exact hs.compat j j0 hjne k v op hoj hop (valPos_inj hs.sw hs.nodup (valPos_of_slot hsl) hvp)
+      SlotKey cmp t op x i →
+      (op.isSearch = false → ∀ y, Sub t.root y → y.id = x → ∀ h : i < y.kvs.length, nearOp cmp op y.kvs[i].1 = true) → False := by
+    intro j k v o x i hjne hoj hsl hvp hnear
+    exact slot_disjoint hs hjne hoj hop hsl hvp hnear
+  have haux : ∀ x i v, AuxRep (c.mem.setVal x i v) t := fun x i v => hi.aux
+  have hmemok : MemOK c.mem t := ⟨hi.frozen.root, hi.gen, hi.frozen.struct, hi.aux⟩
   by_cases hw : ∃ l, accessOf pc = some ⟨l, true⟩
   · -- the write of a Put
     obtain ⟨l, hl⟩ := hw
     obtain ⟨k, v, x, iw, rfl, rfl, hslot, hnext⟩ := write_step hg c.mem hl
     simp only [hnext]
     refine ⟨by simpa using hi.len, hi.size, hi.gen, ⟨hi.frozen.root, fun y hy => nodeS_setVal _ _ _ (hi.frozen.struct y hy)⟩,
-      ?_, ?_, ?_⟩
+      ?_, ?_, ?_, haux _ _ _, ?_⟩
+    rotate_left 3
     · intro i op' pc' ho hp
       by_cases hij : i = j0
       · subst hij
         rw [hself] at hp; cases hp
         rw [hop] at ho; cases ho
-        rfl
+        exact scanGood_of_search (by intro a b c d e h; cases h) _
+      · rw [hne _ i hij] at hp
+        exact hi.scan i op' pc' ho hp
+    · intro i op' pc' ho hp
+      by_cases hij : i = j0
+      · subst hij
+        rw [hself] at hp; cases hp
+        rw [hop] at ho; cases ho
+        intro _; rfl
       · rw [hne _ i hij] at hp
         exact hi.good i op' pc' ho hp
     · intro j k' v' pc' ho hp hd x' i' hsl
@@ -109,7 +197,8 @@ theorem cinv_step {t : Tree K V} {ops : List (Op K V)} (hs : Setup cmp t ops) {c
         have hold := hi.written j k' v' pc' ho hp hd x' i' hsl
         have : ¬ (x' = x ∧ i' = iw) := by
           rintro ⟨rfl, rfl⟩
-          exact hdisj j k' v' (.put k v) x' i' hij ho hsl (valPos_of_slot hslot)
+          exact hdisj j k' v' (.put k v) x' i' hij ho hsl (Or.inl ⟨rfl, valPos_of_slot hslot⟩)
+            (fun h => by simp [Op.isSearch] at h)
         simp only [this, if_false]
         exact hold
     · intro y hy i hlt hprem
@@ -144,10 +233,37 @@ theorem cinv_step {t : Tree K V} {ops : List (Op K V)} (hs : Setup cmp t ops) {c
         · subst hij
           rw [hop] at ho; cases ho
           simp [Op.isPut] at hwr
-        · exact (hdisj j k' v' op y.id i hij ho hsl hvp).elim
+        · exact (hdisj j k' v' op y.id i hij ho hsl hvp (near_at_val hs hi hop hpc ha)).elim
     have hg' := good_next hs.nodup hok hi.frozen hg hv
     refine ⟨by simpa using hi.len, by rw [hmem]; exact hi.size, by rw [hmem]; exact hi.gen,
-      by rw [hmem]; exact hi.frozen, ?_, ?_, ?_⟩
+      by rw [hmem]; exact hi.frozen, ?_, ?_, ?_, by rw [hmem]; exact hi.aux, ?_⟩
+    rotate_left 3
+    · intro i op' pc' ho hp
+      by_cases hij : i = j0
+      · subst hij
+        rw [hself] at hp; cases hp
+        rw [hop] at ho; cases ho
+        cases hsr : op.isSearch with
+        | true => exact scanGood_of_search (by intro a b c d e h; rw [h] at hsr; simp [Op.isSearch] at hsr) _
+        | false =>
+          cases pc with
+          | it ph st => exact scanGood_next hs.sw hmemok (fun _ _ _ _ _ _ => (hs.scanOK i op hop hsr).2) (hi.scan i op _ hop hpc)
+          | done r => simp [PC.isDone] at hnd
+          | run ops' cont rg r =>
+            rcases hg with ⟨hsr', _, _⟩ | ⟨x', _, _, _, ⟨k, rfl, _⟩ | ⟨k, v, rfl, _, _⟩⟩
+            · rw [hsr] at hsr'; cases hsr'
+            · cases hsr
+            · cases hsr
+          | test x' i' => obtain ⟨hsr', _⟩ := hg; rw [hsr] at hsr'; cases hsr'
+          | key x' i' => obtain ⟨hsr', _⟩ := hg; rw [hsr] at hsr'; cases hsr'
+          | retn x' => obtain ⟨hsr', _⟩ := hg; rw [hsr] at hsr'; cases hsr'
+          | leaf x' idx => obtain ⟨hp', _⟩ := hg; rw [Op.isPut_of_not_search hsr] at hp'; cases hp'
+          | child x' idx => obtain ⟨hsr', _⟩ := hg; rw [hsr] at hsr'; cases hsr'
+          | full x' => exact hg.elim
+          | itest x' j' => exact hg.elim
+          | ikey x' j' => exact hg.elim
+      · rw [hne _ i hij] at hp
+        exact hi.scan i op' pc' ho hp
     · intro i op' pc' ho hp
       by_cases hij : i = j0
       · subst hij
@@ -175,9 +291,9 @@ theorem cinv_step {t : Tree K V} {ops : List (Op K V)} (hs : Setup cmp t ops) {c
       · exact hprem j k' v' pc' ho (by rw [hne _ j hij]; exact hp) hsl
 
 theorem reach_inv {t : Tree K V} {ops : List (Op K V)} (hs : Setup cmp t ops) {m : Mem K V} (hr : Rep m t)
-    {c : Config K V} (h : Reach cmp ops (initial m ops) c) : CInv cmp t ops c := by
+    (hx : AuxRep m t) {c : Config K V} (h : Reach cmp ops (initial m ops) c) : CInv cmp t ops c := by
   induction h with
-  | refl => exact cinv_initial hr
+  | refl => exact cinv_initial hs hr hx
   | step _ hst ih => exact cinv_step hs ih hst
 
 /-- no reachable configuration has a data race -/
@@ -213,32 +329,40 @@ theorem cinv_no_race {t : Tree K V} {ops : List (Op K V)} (hs : Setup cmp t ops)
         cases hopi : ops[i] with
         | get k => rw [hopi] at hwra; simp [Op.isPut] at hwra
         | contains k => rw [hopi] at hwra; simp [Op.isPut] at hwra
-        | iter x i g ck => rw [hopi] at hwra; simp [Op.isPut] at hwra
+        | scan fwd sk skey stop limit => rw [hopi] at hwra; simp [Op.isPut] at hwra
         | put k v =>
           rw [hopi] at hvpa hoi
-          exact hs.compat i j hij k v _ hoi hoj (valPos_inj hs.sw hs.nodup hvpa hvpb)
+          rcases hvpa with ⟨_, hvp⟩ | ⟨hns, _⟩
+          · exact valpos_disjoint hs hij hoi hoj hvp hvpb (near_at_val hs hi hoj hpj (w := b.write) (by
+              rw [hb]; cases b; simp_all))
+          · simp [Op.isSearch] at hns
   simp only [conflict, Bool.and_eq_true, decide_eq_true_eq, Bool.or_eq_true] at hconf
   obtain ⟨hloc, hwa | hwb⟩ := hconf
   · exact core i j a b hij ha hb hloc hwa
   · exact core j i b a (Ne.symm hij) hb ha hloc.symm hwb
 
-/-- in a configuration where nobody can move, everybody has returned what the operation returns when
-run alone on `t` -/
+/-- in a configuration where nobody can move, every `Put` / `Get` / `Contains` has returned what the operation
+returns when run alone on `t` -/
 theorem terminal_results {t : Tree K V} {ops : List (Op K V)} {c : Config K V} (hi : CInv cmp t ops c)
-    (ht : Terminal cmp ops c) : ∀ (i : Nat) op, ops[i]? = some op → c.pcs[i]? = some (PC.done (expected cmp t op)) := by
-  intro i op ho
+    (ht : Terminal cmp ops c) : ∀ (i : Nat) op, ops[i]? = some op → op.isSearch = true →
+      c.pcs[i]? = some (PC.done (expected cmp t op)) := by
+  intro i op ho hsr
   have hli : i < c.pcs.length := by rw [hi.len]; exact (List.getElem?_eq_some_iff.mp ho).1
   have hp : c.pcs[i]? = some c.pcs[i] := List.getElem?_eq_getElem hli
   have := ht i
   unfold stepAt at this
   simp only [ho, hp] at this
+  have hg := hi.good i op _ ho hp
   cases hpc : c.pcs[i] with
   | done r =>
-    have hg := hi.good i op _ ho hp
     rw [hpc] at hg
     rw [hp, hpc]
     simp only [Good] at hg
-    rw [hg]
+    rw [hg hsr]
+  | it ph st =>
+    rw [hpc] at hg
+    obtain ⟨hns, _⟩ := hg
+    rw [hsr] at hns; cases hns
   | _ => rw [hpc] at this; simp [PC.isDone] at this
 
 end Juniper.Proofs.TreeAccess
